@@ -3,7 +3,7 @@
 From Coq Require Import ZifyBool.
 From Boltons Require Import Lib.Prelude Spec.C18_Spec Model.C18_Model.
 Ltac Zify.zify_post_hook ::= Z.to_euclidean_division_equations.
-Open Scope N_scope.
+Local Open Scope N_scope.
 
 (* what UTF-8 can carry (every Python str character is < 0x110000) *)
 Definition uvalid (c : N) : Prop := c < 2097152.
@@ -59,39 +59,56 @@ Proof.
 Qed.
 
 (* an incomplete character is kept as it is *)
+Lemma nil_app_contra {A} (p q : list A) : [] = p ++ q -> q <> [] -> False.
+Proof. intros E Q. symmetry in E. apply app_eq_nil in E as [_ E]. congruence. Qed.
+
 Lemma dec_partial c p q : uvalid c -> utf8_enc1 c = p ++ q -> q <> [] ->
   utf8_dec p = ([], p, true).
 Proof.
   unfold uvalid, utf8_enc1. intros V E Q.
   destruct p as [|b0 p]; [reflexivity|].
   destruct (c <? 128) eqn:E1.
-  { destruct p; cbn [app] in E; [injection E as _ E; congruence|discriminate]. }
+  { cbn [app] in E. injection E as _ E. now apply nil_app_contra in E. }
   destruct (c <? 2048) eqn:E2.
-  { destruct p as [|b1 p]; cbn [app] in E; injection E as E0 E.
-    - subst b0. cbn [utf8_dec].
-      replace (192 + c / 64 <? 128) with false by lia.
-      replace (192 + c / 64 <? 192) with false by lia.
-      replace (192 + c / 64 <? 224) with true by lia. reflexivity.
-    - destruct p; cbn [app] in E; [injection E as _ E; congruence|]. injection E as _ E. destruct p; discriminate. }
+  { assert (H0 : 192 <= 192 + c / 64 < 224) by lia.
+    set (x0 := 192 + c / 64) in *. set (x1 := 128 + c mod 64) in *. clearbody x0 x1.
+    cbn [app] in E. injection E as E0 E. subst b0.
+    destruct p as [|b1 p]; cbn [app] in E.
+    - cbn [utf8_dec].
+      replace (x0 <? 128) with false by lia.
+      replace (x0 <? 192) with false by lia.
+      replace (x0 <? 224) with true by lia. reflexivity.
+    - injection E as _ E. now apply nil_app_contra in E. }
   destruct (c <? 65536) eqn:E3.
-  { destruct p as [|b1 p]; cbn [app] in E; injection E as E0 E; subst b0; cbn [utf8_dec];
-      replace (224 + c / 4096 <? 128) with false by lia;
-      replace (224 + c / 4096 <? 192) with false by lia;
-      replace (224 + c / 4096 <? 224) with false by lia;
-      replace (224 + c / 4096 <? 240) with true by lia; [reflexivity|].
-    destruct p as [|b2 p]; cbn [app] in E; injection E as _ E; [reflexivity|].
-    destruct p as [|b3 p]; cbn [app] in E; [injection E as _ E; congruence|].
-    injection E as _ E. destruct p; discriminate. }
-  destruct p as [|b1 p]; cbn [app] in E; injection E as E0 E; subst b0; cbn [utf8_dec];
-    replace (240 + c / 262144 <? 128) with false by lia;
-    replace (240 + c / 262144 <? 192) with false by lia;
-    replace (240 + c / 262144 <? 224) with false by lia;
-    replace (240 + c / 262144 <? 240) with false by lia;
-    replace (240 + c / 262144 <? 248) with true by lia; [reflexivity|].
-  destruct p as [|b2 p]; cbn [app] in E; injection E as _ E; [reflexivity|].
-  destruct p as [|b3 p]; cbn [app] in E; injection E as _ E; [reflexivity|].
-  destruct p as [|b4 p]; cbn [app] in E; [injection E as _ E; congruence|].
-  injection E as _ E. destruct p; discriminate.
+  { assert (H0 : 224 <= 224 + c / 4096 < 240) by lia.
+    set (x0 := 224 + c / 4096) in *. set (x1 := 128 + (c / 64) mod 64) in *. set (x2 := 128 + c mod 64) in *.
+    clearbody x0 x1 x2.
+    cbn [app] in E. injection E as E0 E. subst b0.
+    assert (D : forall t, match t with _ :: _ :: _ => False | _ => True end -> utf8_dec (x0 :: t) = ([], x0 :: t, true)).
+    { intros t Ht. cbn [utf8_dec].
+      replace (x0 <? 128) with false by lia.
+      replace (x0 <? 192) with false by lia.
+      replace (x0 <? 224) with false by lia.
+      replace (x0 <? 240) with true by lia. destruct t as [|? [|? ?]]; tauto. }
+    destruct p as [|b1 p]; cbn [app] in E; [now apply D|]. injection E as _ E.
+    destruct p as [|b2 p]; cbn [app] in E; [now apply D|]. injection E as _ E.
+    now apply nil_app_contra in E. }
+  assert (H0 : 240 <= 240 + c / 262144 < 248) by lia.
+  set (x0 := 240 + c / 262144) in *. set (x1 := 128 + (c / 4096) mod 64) in *.
+  set (x2 := 128 + (c / 64) mod 64) in *. set (x3 := 128 + c mod 64) in *.
+  clearbody x0 x1 x2 x3.
+  cbn [app] in E. injection E as E0 E. subst b0.
+  assert (D : forall t, match t with _ :: _ :: _ :: _ => False | _ => True end -> utf8_dec (x0 :: t) = ([], x0 :: t, true)).
+  { intros t Ht. cbn [utf8_dec].
+    replace (x0 <? 128) with false by lia.
+    replace (x0 <? 192) with false by lia.
+    replace (x0 <? 224) with false by lia.
+    replace (x0 <? 240) with false by lia.
+    replace (x0 <? 248) with true by lia. destruct t as [|? [|? [|? ?]]]; tauto. }
+  destruct p as [|b1 p]; cbn [app] in E; [now apply D|]. injection E as _ E.
+  destruct p as [|b2 p]; cbn [app] in E; [now apply D|]. injection E as _ E.
+  destruct p as [|b3 p]; cbn [app] in E; [now apply D|]. injection E as _ E.
+  now apply nil_app_contra in E.
 Qed.
 
 Lemma dec_nil : utf8_dec [] = ([], [], true).
